@@ -131,4 +131,27 @@ def c04stopped (o : Obs) : Option String :=
   else if !o.reqs.isEmpty then some "C04.stop_is_final: a request was sent after the client was stopped"
   else none
 
+/-- C19 on a cleaner tick at time `now`: `idleSince` gives, for every entry cached before the tick, the time of
+its last lookup (or of its caching when it was never looked up) -/
+def c19tick (pre o : Obs) (idleSince : List (RType × String × Nat)) (now : Nat) : Option String :=
+  let judge := idleSince.filterMap (fun (rt, n, t) =>
+    let cachedBefore := (lookupC pre rt n).isSome
+    if !cachedBefore then none else
+    let mustGo := now - t > 30 && !(rt = .lds && n = "virtualInbound")
+    let gone := (lookupC o rt n).isNone
+    let unsub := !((o.interest rt).getD []).contains n
+    if mustGo && !gone then some s!"C19.sweep: {repr rt}/{n} idle since {t} was not removed by the sweep at {now}"
+    else if mustGo && !unsub then some s!"C19.sweep: {repr rt}/{n} was removed but is still in the interest set"
+    else if mustGo && !(o.reqs.any (fun q => q.rt = rt && !q.names.contains n)) then some s!"C19.sweep: no request without {repr rt}/{n} was sent"
+    else if !mustGo && gone then some s!"C19.recent_kept/reserved_kept: {repr rt}/{n} (idle since {t}) was removed by the sweep at {now}"
+    else if !mustGo && !unsub && false then none
+    else none)
+  match judge with
+  | m :: _ => some m
+  | [] =>
+    -- nothing else may change
+    match RType.all.filter (fun rt => (o.cache rt).any (fun e => (lookupC pre rt e.1) != some e.2)) with
+    | rt :: _ => some s!"C19: the sweep changed a cached value of {repr rt}"
+    | [] => none
+
 end XdsVerif.Spec.Hist
